@@ -346,10 +346,12 @@ def annotate_fn(text, item: Fn, log, where):
             new_sig = sig[:arrow] + f"-> ({item.ret}: {ty}) " + (sig[end:] if w else "")
     if item.rename:
         new_sig = re.sub(r"\bfn\s+" + re.escape(item.name) + r"\b", "fn " + item.rename, new_sig, count=1)
-    contract = ("\n" + item.contract.strip() + "\n") if item.contract.strip() else ""
+    # a HELPER's contract may be a function of its signature text (e.g. name the parameter the signature has): the top-level postconditions stay fixed text
+    ctext0 = (item.contract(sig) if callable(item.contract) else item.contract).strip()
+    contract = ("\n" + ctext0 + "\n") if ctext0 else ""
     if VACUITY and not item.contract_only:
         # vacuity probe: same preconditions, postcondition `false` — the verifier must REFUSE it (see report.vacuity_probe)
-        ctext = item.contract.strip()
+        ctext = ctext0
         me = re.search(r"(?m)(^|[\s,])ensures\b", ctext)
         pre = ctext[:me.start() + len(me.group(1))] if me else (ctext + ("\n" if ctext else ""))
         md = re.search(r"(?m)(^|[\s,])decreases\b.*$", ctext[me.end():] if me else "", re.S)
@@ -548,7 +550,7 @@ def generate(unit: Unit, root, rules_mod):
         meta["items"].append({"item": where, "lines": [src.line_of(s), src.line_of(e)], "sha256": sha(orig_unmarked), "kind": "fn",
                               "loops": n_loops, "loops_with_invariant": (n_loops if it.loop_fn is not None else len(it.loops)),
                               "loops_by_header": it.loop_fn is not None,
-                              "has_contract": bool(it.contract.strip()), "obligation": it.obligation, "rename": it.rename, "contract_only": bool(it.contract_only)})
+                              "has_contract": bool(it.contract if callable(it.contract) else it.contract.strip()), "obligation": it.obligation, "rename": it.rename, "contract_only": bool(it.contract_only)})
     parts.append("\n} // verus!\nfn main() {}\n")
     meta["dropped_hints"] = sorted(set(DROPPED_HINTS))
     return "".join(parts), meta
